@@ -144,6 +144,26 @@ def generate(rng, tier):
             for frac in (0.001, 0.5):
                 qs.append(f"K{fb(b2f(f2b((top - z0) * scale * frac)))},{fb(1000.0)},{fb(1000.0)}")
         out.append((f"stats {hx(skyb(blk, rng))} " + " ".join(qs), True))
+    # level flight stored as a *linear* altitude segment whose end equals its start (two stored coefficients, one of them
+    # zero): at the start of the show with h = 0 (E = 0), and as a plateau exactly at the takeoff altitude after a climb
+    for _ in range(40 if tier == "thorough" else 8):
+        scale = rng.choice([1, 10])
+        z0 = rng.choice([0, 500, -200])
+        top = z0 + rng.choice([1000, 2500, 3000])
+        kind = rng.choice(["lin", "cub"])
+        climb = [top] if kind == "lin" else [z0, top - rng.randint(0, 400), top]
+        segs = [(5000, [800], [], [z0], []),                # level move, z stored as a line z0 -> z0
+                (4000, [], [], climb, []),                   # climb to the plateau
+                (5000, [-300], [], [top], []),               # plateau stored as a line top -> top
+                (3000, [], [], [top + 500], [])]
+        blk = build(scale, (0, 0, z0, 0), segs)
+        h = float((top - z0) * scale)
+        qs = [f"K{fb(0.0)},{fb(1000.0)},{fb(math.inf)}", f"K{fb(h)},{fb(1000.0)},{fb(1000.0)}", f"K{fb(h + 1.0)},{fb(1000.0)},{fb(1000.0)}",
+              f"K{fb(h / 2)},{fb(500.5)},{fb(4000.0)}"]
+        out.append((f"stats {hx(skyb(blk, rng))} " + " ".join(qs), True))
+        # every altitude segment level and linear: h = 0 is reached at once, anything above never
+        blk = build(scale, (0, 0, z0, 0), [(5000, [800], [], [z0], []), (2000, [], [300], [z0], [])])
+        out.append((f"stats {hx(skyb(blk, rng))} K{fb(0.0)},{fb(1000.0)},{fb(1000.0)} K{fb(1.0)},{fb(1000.0)},{fb(1000.0)}", True))
     # takeoff altitudes a hair above a hover (one to a few float steps, up to 1e-3 mm): constant-altitude segments are
     # compared exactly, so the hover must not count as reaching the altitude; the crossing is in the climb behind it
     for i in range(60 if tier == "thorough" else 16):
